@@ -118,10 +118,10 @@ class PersistenceLandscaper(BaseEstimator, TransformerMixin):
         # grid bounds learned by an earlier fit are recomputed from the new
         # data; bounds given by the user are kept
         if self._start is None or self._start_is_fitted:
-            self._start = min(_dgm, key=itemgetter(0))[0]
+            self._start = float(min(_dgm, key=itemgetter(0))[0])
             self._start_is_fitted = True
         if self._stop is None or self._stop_is_fitted:
-            self._stop = max(_dgm, key=itemgetter(1))[1]
+            self._stop = float(max(_dgm, key=itemgetter(1))[1])
             self._stop_is_fitted = True
         return self
 
